@@ -179,6 +179,18 @@ func init() {
 								fail = fmt.Sprintf("with the salt changing while the packet is sealed, the packet is not one a conformant server opens (err=%v opened=%v salt read %d times)", e2, ok, fi.reads)
 							}
 						}
+						// the same message value sealed once more (a re-send under a new salt and seq_no): whatever the first sealing
+						// left in the value, the second packet is again a function of (key, salt, session, id, seq_no, body)
+						if fail == "" {
+							inf2 := &envInformator{key: key, salt: salt ^ 0x77, sid: sid, seq: seq + 2}
+							var p3 []byte
+							var e3 error
+							pn := recoverTo(func() { p3, e3 = m.Serialize(inf2, !ack) })
+							s3, sid3, mid3, _, b3, ok := openC2S(key, p3)
+							if pn != nil || e3 != nil || !ok || s3 != inf2.salt || sid3 != sid || mid3 != mid || !bytes.Equal(b3, body) {
+								fail = fmt.Sprintf("the same message value sealed a second time under another salt is not a packet a conformant server opens to its fields (panic=%v err=%v opened=%v)", pn, e3, ok)
+							}
+						}
 					case "s2c":
 						key, _, _, _, _, _ := bindCommon(env, n, []int64{1, 3}[rng.Intn(2)])
 						pv, err := env.Eval(c.Term("pkt"))
@@ -191,6 +203,20 @@ func init() {
 						env.Vars["r_salt"], env.Vars["r_sid"], env.Vars["r_mid"], env.Vars["r_seq"] = term.Int64(o.msg.Salt), term.Int64(o.msg.SessionID), term.Int64(o.msg.MsgID), term.Int64(int64(o.msg.SeqNo))
 						env.Vars["r_body"] = term.Bytes(o.msg.Msg)
 						fail = c.runChecks(env)
+						// a value that came out of a received packet, sealed for sending: the received packet's key material does
+						// not travel with it
+						if fail == "" {
+							inf := &envInformator{key: key, salt: o.msg.Salt + 1, sid: o.msg.SessionID, seq: 4}
+							om := o.msg
+							om.MsgID = (om.MsgID &^ 3) + 4
+							var p3 []byte
+							var e3 error
+							pn := recoverTo(func() { p3, e3 = om.Serialize(inf, true) })
+							s3, _, mid3, _, b3, ok := openC2S(key, p3)
+							if pn != nil || e3 != nil || !ok || s3 != inf.salt || mid3 != om.MsgID || !bytes.Equal(b3, om.Msg) {
+								fail = fmt.Sprintf("a received message sealed for sending is not a packet a conformant server opens to its fields (panic=%v err=%v opened=%v)", pn, e3, ok)
+							}
+						}
 					case "plain_out":
 						_, _, _, mid, _, body := bindCommon(env, n, 0)
 						var pkt []byte
@@ -225,6 +251,9 @@ func init() {
 			}))
 		}
 		nmut := 0
+		if *only != "c03" {
+			c04LiveTransport(rep, rng, *seed, 6)
+		}
 		if *only != "c03" && *mutPath != "" {
 			must(readNDJSON(*mutPath, func(raw json.RawMessage) error {
 				c, err := parseTermCase(raw)
